@@ -1,27 +1,22 @@
 PROPERTY = 'C32'
 LEVEL = 'proof'
-VERUS = ['verus/C32.rs', 'verus/C32_settle.rs']
+VERUS = ['verus/C32.rs', 'verus/C32_settle.rs', 'verus/C32_decrease.rs']
 TRUSTED = [
     'prelude / monomorphisation / U256 contract as in C01; glue_u128 forwarding wrappers',
     'carrier Order{builder_fee_amount}: record_builder_fee touches only that field',
     'anchor require*!/error! macros rewritten per R5/R6 (error payloads dropped)',
 ]
 UNVERIFIED = [
-    'decrease path: `paid = clamp_builder_fee_amount(payable, output_amount)` then `record_builder_fee(paid)` inside execute_decrease_position (private, over Anchor account wrappers): the two expressions are located by text on every run (lost => exit 2) but the surrounding function is not proved; clamp itself (min) is proved',
+    'decrease path: the statement `if builder_fee_factor != 0 { .. }` of execute_decrease_position IS under contract as a BLOCK unit (verus/C32_decrease.rs; `//@ block`: only that statement of the ~250-line function is kept, its free variables are the unit\'s parameters, so the contract holds for arbitrary values of them); Oracle::get_primary_price is an assumed deterministic read, the BuilderFeeCharged event CPI an assumed fallible call; that `output_amount` at that point is what the order pays out (transfer_out two statements later) is not proved',
     'settlement handler: the SPL transfer_checked CPI is one ghost-ledger entry (assumed: it fails or moves exactly the amount), AccountLoader::load()/load_mut() are projections, the event CPI is an arbitrary fallible call; account constraints (escrow / claim vault ATAs, signer seeds) are Anchor attributes outside both verifiers',
 ]
 ASSUMPTIONS = []
 MANIFEST = dict(engine='verus',
-    technique='Verus contracts on the private free functions compute/clamp/charge/estimate builder fee, Order::record_builder_fee and the whole SettleBuilderFee::invoke handler (SPL transfer as a ghost-ledger entry), extracted by text from /repo each run',
+    technique='(decrease path: Verus contract on the builder-fee block of execute_decrease_position, extracted as one statement) Verus contracts on the private free functions compute/clamp/charge/estimate builder fee, Order::record_builder_fee and the whole SettleBuilderFee::invoke handler (SPL transfer as a ghost-ledger entry), extracted by text from /repo each run',
     text='Deductive proof, unbounded over sizes, factors, prices, increments: fee == ceil(floor(size*f/U) / min price) (rounded up, never under-collected), zero factor => zero fee without reading the price; increase: Ok implies fee + remaining == increment, shortfall is an error; estimate: bypass swap type rejected for any non-zero factor; clamp == min; record accumulates with overflow failing and leaving the record unchanged. Settlement (whole handler): a zero record is a no-op without any transfer; otherwise exactly one transfer from the escrow to the claim vault of the recorded builder, of min(recorded amount, escrow balance), after which the record is zero - so repeating the settlement is the no-op.',
     note='Trusted: Verus+Z3, prelude, glue. The decrease-path clamp call is only located, not proved (listed); the settlement handler is proved on carriers (SPL transfer assumed atomic).')
 
 
 def extra(res, repo, tier, seed):
-    import os, re
-    s = open(os.path.join(repo, 'programs/store/src/ops/order.rs')).read()
-    if not re.search(r'clamp_builder_fee_amount\(\s*payable_amount\s*,\s*output_amount\.into\(\)\s*\)', s):
-        res.undecided.append('anchor lost: decrease-path clamp `clamp_builder_fee_amount(payable_amount, output_amount.into())` not found in ops/order.rs')
-    b = open(os.path.join(repo, 'programs/store/src/instructions/builder_fee.rs')).read()
-    if not re.search(r'recorded_amount\.min\(\s*ctx\.accounts\.escrow\.amount\s*\)', b) or 'builder_fee_amount = 0' not in b:
-        res.undecided.append('anchor lost: settlement expressions (`recorded_amount.min(ctx.accounts.escrow.amount)`, `builder_fee_amount = 0`) not found in instructions/builder_fee.rs')
+    # both text anchors are gone: the decrease-path block (verus/C32_decrease.rs) and the settlement handler (verus/C32_settle.rs) are units
+    pass
